@@ -136,6 +136,7 @@ class JournalStorage(BaseStorage):
         r._worker_id_prefix = self._worker_id_prefix
         r._worker_id_to_owned_trial_id = {}
         r._last_created_trial_id_by_this_process = -1
+        r._last_created_study_id_by_this_process = -1
         self._replay_result = r
 
     def _write_log(self, op_code: int, extra_fields: dict[str, Any]) -> None:
@@ -157,23 +158,21 @@ class JournalStorage(BaseStorage):
             )
             self._sync_with_backend()
 
-            for frozen_study in self._replay_result.get_all_studies():
-                if frozen_study.study_name != study_name:
-                    continue
+            # The ID is taken from the replay of this worker's own log. The study must not be
+            # looked up by its name here: another worker may already have deleted it (or even
+            # have created another study with the same name after that).
+            study_id = self._replay_result._last_created_study_id_by_this_process
+            _logger.info("A new study created in Journal with name: {}".format(study_name))
 
-                _logger.info("A new study created in Journal with name: {}".format(study_name))
-                study_id = frozen_study._study_id
+            # Dump snapshot here.
+            if (
+                isinstance(self._backend, BaseJournalSnapshot)
+                and study_id != 0
+                and study_id % SNAPSHOT_INTERVAL == 0
+            ):
+                self._backend.save_snapshot(pickle.dumps(self._replay_result))
 
-                # Dump snapshot here.
-                if (
-                    isinstance(self._backend, BaseJournalSnapshot)
-                    and study_id != 0
-                    and study_id % SNAPSHOT_INTERVAL == 0
-                ):
-                    self._backend.save_snapshot(pickle.dumps(self._replay_result))
-
-                return study_id
-            assert False, "Should not reach."
+            return study_id
 
     def delete_study(self, study_id: int) -> None:
         with self._thread_lock:
@@ -495,6 +494,9 @@ class JournalStorageReplayResult:
             directions=directions,
         )
         self._study_id_to_trial_ids[study_id] = []
+
+        if self._is_issued_by_this_worker(log):
+            self._last_created_study_id_by_this_process = study_id
 
     def _apply_delete_study(self, log: dict[str, Any]) -> None:
         study_id = log["study_id"]
